@@ -51,6 +51,8 @@ class Group:
         self.module = "verif_kani_" + name
         self.attrs = []  # (file, fn_regex_name, [attr lines])
         self.extra_items = []  # (file, text) appended at top level of file
+        self.kani_norm = {}
+        self.strip_tracing = []  # files in which tracing attributes / macro statements are removed (K1)
         self.harnesses = []
         self._parse()
 
@@ -64,6 +66,8 @@ class Group:
             s = ln.strip()
             if s.startswith("//@ target:"):
                 self.target = s.split(":", 1)[1].strip()
+            elif s.startswith("//@ strip-tracing "):
+                self.strip_tracing.append(s.split(None, 2)[2].strip())
             elif s.startswith("//@ attrs "):
                 _, _, f, fn = s.split(None, 3)
                 cur_attr = (f, fn.strip(), [])
@@ -131,6 +135,33 @@ def insert_attrs(src_text, fn_name, attr_lines, fname):
     raise Undecided("lost anchor: fn %s in %s" % (fn_name, fname))
 
 
+def strip_tracing(text):
+    """K1: remove `#[tracing::instrument(..)]` attributes and `tracing::<level>!(..);` / `let _ = tracing::..span!(..).enter();`
+    statements (logging only; kani-compiler 0.68 crashes - intrinsics.rs:243 - on code reached from tracing's callsite
+    registration). Returns (text, count)."""
+    import rustscan as RS
+    n = 0
+    while True:
+        m = RS.mask(text)
+        mm = re.search(r"#\[tracing::instrument", m)
+        if mm:
+            ob = m.index("[", mm.start())
+            cb = RS.match_brace(m, ob)
+            text = text[:mm.start()] + text[cb + 1:]
+            n += 1
+            continue
+        mm = re.search(r"(?m)^[ \t]*(let\s+_\w*\s*=\s*)?tracing::\w+!\s*\(", m)
+        if mm:
+            ob = m.index("(", mm.end() - 1)
+            cb = RS.match_brace(m, ob)
+            semi = m.index(";", cb)
+            text = text[:mm.start()] + text[semi + 1:]
+            n += 1
+            continue
+        break
+    return text, n
+
+
 def splice(scratch_repo, groups):
     by_file = {}
     for g in groups:
@@ -144,6 +175,12 @@ def splice(scratch_repo, groups):
         if not os.path.exists(path):
             raise Undecided("lost anchor: file %s" % f)
         text = read(path)
+        if any(f in g.strip_tracing for g in groups):
+            text, n_tr = strip_tracing(text)
+            text = "#![allow(unused)]\n" + text   # the crate denies warnings; a stripped log statement may leave a variable unused
+            for g in groups:
+                if f in g.strip_tracing:
+                    g.kani_norm["K1 tracing attributes / log statements removed in the scratch copy (logging only; kani-compiler crashes on tracing's callsite code)"] = n_tr
         for fn, attr_lines in attr_files.get(f, []):
             text = insert_attrs(text, fn, attr_lines, f)
         for g in by_file.get(f, []):
@@ -270,7 +307,10 @@ def run_kani(prop, group_names, tier, timeout=1500, jobs=16, only=None, keep_scr
     log("[kani] %s: %d harnesses: %s" % (prop, len(selected), " ".join(h.name for h in selected)))
     rc, out, wall = run(cmd, cwd=repo, timeout=timeout, rss_gb=float(os.environ.get("VERIF_RSS_GB", "40")))
     write(os.path.join(CACHE, "logs", "kani-%s-%s.log" % (prop, tier)), out)
-    info = {"cmd": " ".join(cmd), "wall": wall, "scratch": repo, "rc": rc}
+    info = {"cmd": " ".join(cmd), "wall": wall, "scratch": repo, "rc": rc, "normalisations": {}}
+    for g in used_groups:
+        for k, n in g.kani_norm.items():
+            info["normalisations"][k] = n
     if rc is None:
         raise Undecided("kani run exceeded time/memory limit (%ds)" % timeout)
     if "error: could not compile" in out or re.search(r"^error(\[E\d+\])?:", out, re.M) and "VERIFICATION" not in out:
